@@ -445,6 +445,12 @@ def _f49b(vio):
                for _p, n in model.walk(d))
 
 
+@mechanism("F51-field-between-advanced-indexes")
+def _f51(vio):
+    return vio.get("kind") == "commutation-outcome" and \
+        "advanced indexes separated by basic indexes" in str(vio.get("detail"))
+
+
 @mechanism("F10-reduce-nonlocal")
 def _f10(vio):
     rep = _report(vio)
